@@ -62,6 +62,8 @@ func Sleep(ctx context.Context, args ...object.Object) object.Object {
 	verifSleep(ctx, d)
 	select {
 	case <-ctx.Done():
+		// The sleep did not complete: the evaluation must not go on as if it had
+		return object.NewError(ctx.Err())
 	case <-timer.C:
 	}
 	return object.Nil
